@@ -1,5 +1,6 @@
 import Aldy.Driver.Views
 import Aldy.Model.Major
+import Aldy.Model.Filters
 
 /-! Driver ops for the major stage. -/
 
@@ -29,5 +30,16 @@ def opMajorFilter (j : Json) : Except String Json := do
   let (al, cov) := filterAlleles g p s c
   pure (objJ [("alleles", listJ strJ (al.map (·.name))), ("cov", covJ cov),
               ("has_candidates", boolJ (majorHasCandidates s al))])
+
+/-- the evidence filter of `estimate_minor` -/
+def opMinorFilter (j : Json) : Except String Json := do
+  let g ← jGeneView (← field j "gene")
+  let p ← jProfile (← field j "profile")
+  let lastCn ← jCNSol (← field j "last_cn")
+  let c ← jCov (← field j "cov")
+  let ms ← jList (jPair (jList jStr) (jList jMut)) (← field j "major_sols")
+  let considered := consideredMuts g ms
+  pure (objJ [("cov", covJ (minorFilteredCov g p lastCn considered c)),
+              ("considered", listJ mutJ considered)])
 
 end Aldy.Driver
